@@ -9,11 +9,16 @@ import struct
 from .. import interp
 
 ID = "C07"
-LEAN_MODULES = ["Ebv.Props.C07", "Ebv.Props.C07TV"]
-MODEL_MODULES = ["Ebv.Model.PktVar"]
+LEAN_MODULES = ["Ebv.Props.C07", "Ebv.Props.C07Seq", "Ebv.Props.C07TV"]
+MODEL_MODULES = ["Ebv.Model.PktVar", "Ebv.Model.PktSeq"]
 DRIVER = "Drivers/C07.lean"
 THEOREMS = ["Ebv.C07.read_exact", "Ebv.C07.read_old_refuted", "Ebv.C07.write_exact", "Ebv.C07.write_own_bytes",
             "Ebv.C07.write_then_slice", "Ebv.C07.guard_iff", "Ebv.C07.guard_covers",
+            # statements whose value is another variable, for every pair of formats; sequences of statements in one program
+            "Ebv.C07Seq.copy_is_struct", "Ebv.C07Seq.via_is_struct", "Ebv.C07Seq.iaddVar_is_struct", "Ebv.C07Seq.iaddc_is_struct",
+            "Ebv.C07Seq.execMem_is_struct", "Ebv.C07Seq.execAll_is_struct", "Ebv.C07Seq.exec_touches_only_dst", "Ebv.C07Seq.copy_pkt",
+            "Ebv.C07Seq.get_set_same", "Ebv.C07Seq.read_after_store", "Ebv.C07Seq.read_reg_is_struct", "Ebv.C07Seq.wf_exec",
+            "Ebv.C07Seq.execAll_append", "Ebv.C07Seq.execAll_same_memory",
             # translation validation: every member of the regenerated table of 232 real programs refines the model, for all packets/registers
             "Ebv.C07TV.table_refines", "Ebv.C07TV.table_covers", "Ebv.C07TV.table_ok", "Ebv.C07TV.read_is_struct",
             "Ebv.C07TV.write_is_struct", "Ebv.C07TV.exLayout"]
@@ -28,7 +33,10 @@ TRUSTED = ["translation validation by proof (Ebv.C07TV.table_refines): for the r
 ASSUMPTIONS = ["host is little-endian (asserted by the harness)", "XDP context gives data/data_end; a packet access outside [data, data_end) is a fault"]
 RULE = ("exhaustive over the 32 formats x {64-bit, 32-bit destination} x {read, write from register, write constant, in-place add}, offsets 0..N, "
         "packet contents and values from boundary sets and random; guard: lengths N-2..N+2 for several N; non-trivial = value with the top bit of "
-        "the format set or a multi-byte swap")
+        "the format set or a multi-byte swap; statements between variables: every (source format, destination format) pair of the 32x32 "
+        "table with `dst = src`, through r/w registers, `dst += src`, `dst -= src` on packet variables, packet array elements and local "
+        "variables, overlapping and disjoint offsets; random programs of 2-6 statements (chains, read/store/read of one variable, the same "
+        "statement twice); second instances of one class, derived classes redefining the variables, the base class again afterwards")
 
 FMTS = [o + c for o in ("", "<", ">", "!") for c in "BHIQbhiq"]
 SZ = {"b": 1, "h": 2, "i": 4, "q": 8}
@@ -205,17 +213,393 @@ def run_checks(ctx):
     return cases, impl
 
 
+# ---- statement sequences: copies between variables, updates by a variable, several statements in one program -------------
+# A program is data: {"N": guard size, "guard": "min"|"with", "vars": [[kind, fmt, offset], ...], "stmts": [...]} where kind is
+# "p" (PacketVar(offset, fmt)) or "l" (LocalVar(fmt)); a reference is ["v", i] (variable i) or ["a", letter, pos] (element pos of
+# the packet array pB/pH/pI/pQ); statements:
+#   ["copy", d, s]            d = s
+#   ["via", d, s, long, k]    rk = s (wk = s when not long); d = rk (wk)
+#   ["iadd", d, s, sign]      d += s  /  d -= s
+#   ["const", d, value]       d = value
+#   ["iaddc", d, amount]      d += amount
+#   ["read", k, s, long]      rk = s (wk = s): observed at the end of the program
+LETTER = {1: "B", 2: "H", 4: "I", 8: "Q"}
+_seq_cache = {}
+
+
+def ref_fmt(spec, ref):
+    return spec["vars"][ref[1]][1] if ref[0] == "v" else ref[1]
+
+
+def fsize(fmt):
+    return SZ[fmt[-1].lower()]
+
+
+def std(fmt):
+    return fmt if len(fmt) == 2 else "=" + fmt
+
+
+def seq_class(spec, base=None):
+    """the XDP subclass for `spec` (its variables are class-level descriptors, as in user code)"""
+    import operator
+    from ebpfcat.ebpf import LocalVar
+    from ebpfcat.xdp import XDP, PacketVar, XDPExitCode
+
+    def get(self, ref):
+        if ref[0] == "v":
+            return getattr(self, f"v{ref[1]}")
+        return getattr(self, "p" + ref[1])[ref[2]]
+
+    def put(self, ref, value):
+        if ref[0] == "v":
+            setattr(self, f"v{ref[1]}", value)
+        else:
+            getattr(self, "p" + ref[1])[ref[2]] = value
+
+    def body(self):
+        for st in spec["stmts"]:
+            t = st[0]
+            if t == "copy":
+                put(self, st[1], get(self, st[2]))
+            elif t == "via":
+                regs = self.r if st[3] else self.w
+                regs[st[4]] = get(self, st[2])
+                put(self, st[1], regs[st[4]])
+            elif t == "iadd":
+                op = operator.iadd if st[3] > 0 else operator.isub
+                put(self, st[1], op(get(self, st[1]), get(self, st[2])))
+            elif t == "const":
+                put(self, st[1], st[2])
+            elif t == "iaddc":
+                put(self, st[1], operator.iadd(get(self, st[1]), st[2]))
+            elif t == "read":
+                (self.r if st[3] else self.w)[st[1]] = get(self, st[2])
+        self.exit(XDPExitCode.TX)
+
+    ns = {"license": "GPL"}
+    for i, (kind, fmt, off) in enumerate(spec["vars"]):
+        ns[f"v{i}"] = PacketVar(off, fmt) if kind == "p" else LocalVar(fmt)
+    N = spec["N"]
+    if base is not None:
+        pass        # a derived class: the library runs the base class's program (same statements) on the redefined variables
+    elif spec.get("guard", "min") == "min":
+        ns["minimumPacketSize"] = N
+        ns["program"] = body
+    else:
+        def program(self):
+            with self.packetSize > N as pk:
+                self.pB, self.pH, self.pI, self.pQ = pk.pB, pk.pH, pk.pI, pk.pQ
+                body(self)
+            self.exit(XDPExitCode.PASS)
+        ns["program"] = program
+    return type("S", (base or XDP,), ns)
+
+
+def build_seq(spec, cls=None):
+    """the instructions the real generator emits for `spec` (a fresh instance; `cls` = instantiate this class once more) and
+    where its local variables ended up on the stack: {"code": [...] or error text, "loc": {variable index: offset from r10}}"""
+    key = None
+    if cls is None:
+        key = canon_spec(spec)
+        if key in _seq_cache:
+            return _seq_cache[key]
+        cls = seq_class(spec)
+    e = cls()
+    try:
+        e.assemble()
+        code = list(e.opcodes)
+    except Exception as ex:
+        code = f"{type(ex).__name__}: {ex}"
+    res = {"code": code, "keep": e,
+           "loc": {i: cls.__dict__[f"v{i}"].relative_addr for i, v in enumerate(spec["vars"]) if v[0] == "l"}}
+    if key is not None:
+        _seq_cache[key] = res
+    return res
+
+
+def canon_spec(spec):
+    import json
+    return json.dumps(spec, sort_keys=True)
+
+
+def execute_seq(insns, pkt):
+    """(r0, packet afterwards, registers, stack) of one run"""
+    regions, pk = interp.xdp_regions(pkt)
+    m = interp.Machine(insns, regions)
+    m.wr(1, interp.CTX_BASE)
+    try:
+        r0 = m.run()
+    except interp.Fault as e:
+        return f"fault:{e}", None, {}, b""
+    return r0, bytes(pk.data), {k: m.regs[k] for k in range(10) if m.init[k]}, bytes(m.stack.data)
+
+
+def struct_seq(spec, pkt):
+    """the property's statement applied statement by statement: what is read is struct.unpack of the bytes at the source, what
+    is stored is struct.pack of the value reduced to the destination's range, nothing else changes; a local variable holds a
+    value of its format.  Returns (packet, {register: (value, bits)})"""
+    pkt = bytearray(pkt)
+    loc, regs = {}, {}
+
+    def rd(ref):
+        fmt = ref_fmt(spec, ref)
+        if ref[0] == "v" and spec["vars"][ref[1]][0] == "l":
+            return loc[ref[1]]
+        off = spec["vars"][ref[1]][2] if ref[0] == "v" else ref[2]
+        return struct.unpack_from(std(fmt), pkt, off)[0]
+
+    def wr(ref, v):
+        fmt = ref_fmt(spec, ref)
+        v = wrap(fmt, v)
+        if ref[0] == "v" and spec["vars"][ref[1]][0] == "l":
+            loc[ref[1]] = v
+            return
+        off = spec["vars"][ref[1]][2] if ref[0] == "v" else ref[2]
+        struct.pack_into(std(fmt), pkt, off, v)
+
+    for st in spec["stmts"]:
+        t = st[0]
+        if t == "copy":
+            wr(st[1], rd(st[2]))
+        elif t == "via":
+            bits = 64 if st[3] else 32
+            regs[st[4]] = (rd(st[2]) % (1 << bits), bits)
+            wr(st[1], regs[st[4]][0])
+        elif t == "iadd":
+            wr(st[1], rd(st[1]) + st[3] * rd(st[2]))
+        elif t == "const":
+            wr(st[1], st[2])
+        elif t == "iaddc":
+            wr(st[1], rd(st[1]) + st[2])
+        elif t == "read":
+            bits = 64 if st[3] else 32
+            regs[st[1]] = (rd(st[2]) % (1 << bits), bits)
+    return bytes(pkt), regs
+
+
+CONSTS = [0, 1, -1, 0x12, 0x1234, 0x12345678, -0x8000, 0x7fffffff, -0x80000000, 0x80000000, 0xffffffff, 0xdeadbeef, 0x100000000,
+          0x123456789abcdef0]
+AMOUNTS = [1, 5, -1, 255, 256, -300, 0x7fff]
+
+
+def place(rng, N, n, near=None):
+    """an offset for an n-byte variable inside the guarded size; `near` = (offset, size) to overlap with"""
+    if near is not None:
+        lo, hi = max(0, near[0] - n + 1), min(N + 1 - n, near[0] + near[1] - 1)
+        if lo <= hi:
+            return rng.randint(lo, hi)
+    return rng.randrange(0, N + 2 - n)
+
+
+def pair_spec(rng, sf, df, N):
+    """one statement from a variable of format sf to a variable of format df, in a random setting: packet variables, packet
+    array elements, local variables on either side, overlapping or disjoint offsets, a read of the destination before/after"""
+    sn, dn = fsize(sf), fsize(df)
+    kind = rng.choice(["copy"] * 4 + ["viaL"] * 2 + (["viaW"] if dn <= 4 else []) + ["iadd", "iadd", "isub"])
+    sp = place(rng, N, sn)
+    dp = place(rng, N, dn, (sp, sn) if rng.random() < 0.3 else None)
+    vs = [["p", sf, sp], ["p", df, dp]]
+    s, d = ["v", 0], ["v", 1]
+    pre, post = [], []
+    r = rng.random()
+    if sf in "BHIQ" and r < 0.25:
+        s = ["a", sf, sp]
+    elif r < 0.45:          # the source is a local variable of this format, loaded from the packet
+        vs.append(["l", sf, 0])
+        s = ["v", len(vs) - 1]
+        pre.append(["copy", s, ["v", 0]])
+    r = rng.random()
+    if df in "BHIQ" and r < 0.25:
+        d = ["a", df, dp]
+    elif r < 0.4:           # the destination is a local variable, loaded from and stored back to the packet
+        vs.append(["l", df, 0])
+        d = ["v", len(vs) - 1]
+        pre.append(["copy", d, ["v", 1]])
+        post.append(["copy", ["v", 1], d])
+    if rng.random() < 0.2:
+        pre.append(["read", 7, d, True])
+    st = {"copy": ["copy", d, s], "viaL": ["via", d, s, True, 5], "viaW": ["via", d, s, False, 5],
+          "iadd": ["iadd", d, s, 1], "isub": ["iadd", d, s, -1]}[kind]
+    if rng.random() < 0.3:
+        post.append(["read", 6, d, rng.random() < 0.7])
+    return {"N": N, "guard": "with" if rng.random() < 0.15 else "min", "vars": vs, "stmts": pre + [st] + post}, kind
+
+
+def random_spec(rng, N):
+    """a program of several statements over a few variables: later statements read what earlier ones stored"""
+    vs = []
+    for i in range(rng.randint(2, 4)):
+        fmt = rng.choice(FMTS)
+        kind = "l" if i and rng.random() < 0.25 else "p"
+        near = None
+        if vs and vs[-1][0] == "p" and rng.random() < 0.3:
+            near = (vs[-1][2], fsize(vs[-1][1]))
+        vs.append([kind, fmt, place(rng, N, fsize(fmt), near) if kind == "p" else 0])
+    ready = {i for i, v in enumerate(vs) if v[0] == "p"}
+    spec = {"N": N, "guard": "with" if rng.random() < 0.15 else "min", "vars": vs, "stmts": []}
+
+    used = []
+
+    def elem():     # packet array elements; the same position is used again with another width now and then
+        letter = rng.choice("BHIQ")
+        pos = place(rng, N, fsize(letter))
+        if used and rng.random() < 0.4:
+            pos = min(rng.choice(used), N + 1 - fsize(letter))
+        used.append(pos)
+        return ["a", letter, pos]
+
+    def src():
+        return elem() if rng.random() < 0.15 else ["v", rng.choice(sorted(ready))]
+
+    def dst(must_be_ready=False):
+        if rng.random() < 0.15:
+            return elem()
+        return ["v", rng.choice(sorted(ready)) if must_be_ready else rng.randrange(len(vs))]
+
+    sts = spec["stmts"]
+    for _ in range(rng.randint(2, 6)):
+        t = rng.choice(["copy"] * 4 + ["via"] * 2 + ["iadd"] * 2 + ["const", "iaddc", "read", "read", "again"])
+        if t == "copy":
+            st = ["copy", dst(), src()]
+        elif t == "via":
+            d = dst()
+            long = fsize(ref_fmt(spec, d)) == 8 or rng.random() < 0.6
+            st = ["via", d, src(), long, rng.choice([4, 5])]
+        elif t == "iadd":
+            st = ["iadd", dst(True), src(), rng.choice([1, -1])]
+        elif t == "const":
+            d = dst()
+            st = ["const", d, wrap(ref_fmt(spec, d), rng.choice(CONSTS + [rng.getrandbits(64)]))]
+        elif t == "iaddc":
+            st = ["iaddc", dst(True), rng.choice(AMOUNTS)]
+        elif t == "read":
+            st = ["read", rng.choice([6, 7, 8]), src(), rng.random() < 0.7]
+        else:       # the same statement once more, after its operands may have changed
+            cands = [x for x in sts if x[0] in ("copy", "via", "iadd", "read")]
+            if not cands:
+                continue
+            st = list(rng.choice(cands))
+        sts.append(st)
+        if st[0] != "read" and st[1][0] == "v":
+            ready.add(st[1][1])
+    return spec
+
+
+def vary_spec(rng, a):
+    """the same statements over variables of the same names and kinds but other formats and offsets (a derived class that
+    redefines the variables: the library runs the base class's program on them); variables the statements store a constant
+    to keep their format, destinations of a 32-bit register stay at most 4 bytes wide"""
+    import copy
+    b = copy.deepcopy(a)
+    fixed = {st[1][1] for st in a["stmts"] if st[0] == "const" and st[1][0] == "v"}
+    narrow = {st[1][1] for st in a["stmts"] if st[0] == "via" and not st[3] and st[1][0] == "v"}
+    for i, v in enumerate(b["vars"]):
+        if i not in fixed:
+            v[1] = rng.choice([f for f in FMTS if fsize(f) <= 4] if i in narrow else FMTS)
+        if v[0] == "p":
+            v[2] = place(rng, b["N"], fsize(v[1]))
+    return b
+
+
+def check_seq(ctx, case, prog, kind=None):
+    """run one program on the case's packet, evaluate the property, return the line compared with the model:
+    packet, local variables' stack bytes, the registers the statements set"""
+    pkt = bytes.fromhex(case["pkt"])
+    ctx.case(case, nontrivial=True, kind=kind)
+    code = prog["code"]
+    if isinstance(code, str):
+        ctx.require(False, "generator refused statements between variables", case, code)
+        return code
+    r0, out, regs, stack = execute_seq(code, pkt)
+    want, wregs = struct_seq(case, pkt)
+    ctx.require(r0 == 3, "guarded body with statements between variables did not run to its end", case, str(r0))
+    if out is None:
+        return str(r0)
+    diff = [i for i in range(len(want)) if out[i] != want[i]]
+    ctx.require(not diff, "statements between variables: stored bytes are not struct.pack's of the struct.unpack'ed source, "
+                "or another packet byte changed", case, f"packet {out.hex()} want {want.hex()} first difference at {diff[:1]}")
+    for k, (v, bits) in sorted(wregs.items()):
+        ctx.require(k in regs and regs[k] % (1 << bits) == v, "a read inside a sequence does not give struct.unpack's value "
+                    "of the bytes at that point", case, f"r{k}={regs.get(k)} want {v}")
+    locs = [stack[512 + a:512 + a + fsize(case["vars"][i][1])].hex() for i, a in sorted(prog["loc"].items())]
+    ks = sorted({st[4] for st in case["stmts"] if st[0] == "via"} | {st[1] for st in case["stmts"] if st[0] == "read"})
+    return out.hex() + " " + ",".join(locs) + " " + ",".join(f"{k}={regs.get(k)}" for k in ks)
+
+
+def make_packet(rng, spec):
+    N = spec["N"]
+    pkt = bytearray(rng.getrandbits(8) for _ in range(rng.choice([N + 1, N + 2, N + 17])))
+    for kind, fmt, off in spec["vars"]:
+        if kind == "p" and rng.random() < 0.7:
+            pkt[off:off + fsize(fmt)] = edge_bytes(rng, fsize(fmt))
+    return bytes(pkt)
+
+
+def build_history(case):
+    """programs generated one after another in this process: `hist` = earlier steps [spec, base, reuse] (base/reuse = index of
+    an earlier step or None: subclass of that step's class / one more instance of that step's class), all kept alive; the
+    last step is the case's own program.  Returns the program under test."""
+    steps = list(case.get("hist", [])) + [[{k: case[k] for k in ("N", "guard", "vars", "stmts")}, case.get("base"), case.get("reuse")]]
+    classes, progs = [], []
+    for spec, base, reuse in steps:
+        if reuse is not None:
+            cls = classes[reuse]
+        else:
+            cls = seq_class(spec, None if base is None else classes[base])
+        classes.append(cls)
+        progs.append(build_seq(spec, cls))
+    return progs[-1]
+
+
+def run_seq_checks(ctx):
+    """copies / updates between variables of every pair of formats, sequences of statements, several programs and instances"""
+    rng = ctx.rng
+    cases, impl = [], []
+
+    def one(spec, kind, extra=None):
+        case = {"op": "seq", **spec, "pkt": make_packet(rng, spec).hex(), **(extra or {})}
+        prog = build_history(case) if extra else build_seq(spec)
+        cases.append(case)
+        impl.append(check_seq(ctx, case, prog, kind))
+
+    # every (source format, destination format) pair
+    for _ in range(ctx.n(2, 12)):
+        for sf in FMTS:
+            for df in FMTS:
+                spec, kind = pair_spec(rng, sf, df, rng.choice([14, 30, 40, 63]))
+                one(spec, kind)
+    # programs of several statements
+    for _ in range(ctx.n(600, 6000)):
+        one(random_spec(rng, rng.choice([14, 30, 40, 63])), "sequence")
+    # the same class instantiated again, subclasses redefining the variables, the base class used again afterwards
+    for _ in range(ctx.n(100, 1200)):
+        N = rng.choice([30, 40])
+        a = random_spec(rng, N)
+        b, c = vary_spec(rng, a), vary_spec(rng, a)
+        one(a, "instances", {"hist": [[a, None, None]], "reuse": 0})            # second instance of the same class
+        one(b, "instances", {"hist": [[a, None, None]], "base": 0})             # subclass with other variables under the same names
+        one(a, "instances", {"hist": [[a, None, None], [b, 0, None]], "reuse": 0})   # the base class again after the subclass
+        one(c, "instances", {"hist": [[a, None, None], [b, 0, None]], "base": 0})    # a second subclass next to the first
+    return cases, impl
+
+
 def run(ctx):
     import sys
     assert sys.byteorder == "little"
     cases, impl = run_checks(ctx)
-    model = ctx.drive(DRIVER, [{k: v for k, v in c.items() if k not in ("p", "via")} for c in cases], "packet variable")
+    c2, i2 = run_seq_checks(ctx)
+    cases += c2
+    impl += i2
+    model = ctx.drive(DRIVER, [{k: v for k, v in c.items() if k not in ("p", "via", "hist", "base", "reuse")} for c in cases], "packet variable")
     if model is not None:
         for c, i, m in zip(cases, impl, model):
             ctx.agree(f"packet variable {c['op']}", c, i, m)
 
 
 def replay(ctx, case):
+    if case["op"] == "seq":
+        line = check_seq(ctx, case, build_history(case), "replay")
+        return {"observed": line, "struct": struct_seq(case, bytes.fromhex(case["pkt"]))[0].hex()}
     fmt = case["fmt"]
     explicit, n = len(fmt) == 2, SZ[fmt[-1].lower()]
     if case["op"] == "read":
@@ -264,10 +648,14 @@ LEVEL_TEXT = ("Translation validation by proof of 232 regenerated programs (all 
               "format table: reads give struct.unpack's value (read_exact: all 32 formats, full strength since the fix: commit that extends the sign "
               "after the byte swap; the old order is kept as a refuted variant), "
               "writes store exactly struct.pack's bytes and touch no other byte, the "
-              "guarded body runs iff len > N and accesses with p+n <= N+1 are in bounds. Tie: exact correspondence of the real generated code "
+              "guarded body runs iff len > N and accesses with p+n <= N+1 are in bounds; statements between variables (copy_is_struct, "
+              "via_is_struct, iaddVar_is_struct, iaddc_is_struct: for every pair of formats the stored bytes are pack(dst fmt) of the "
+              "unpack(src fmt)'ed value reduced to the destination's range) and programs of any number of statements on packet + local "
+              "variables (execAll_is_struct: the emitted code's effect is the struct semantics applied statement by statement; "
+              "exec_touches_only_dst: no other byte changes; read_after_store: a later read sees the stored bytes). Tie: exact correspondence of the real generated code "
               "(regenerated from /repo every run, interpreted) with the model over all formats, destinations, offsets and boundary/random data.")
 LEVEL_NOTE = ("trusted: Lean kernel + standard axioms; hand model validated by differential execution (not verified against the generator: the inductive "
-              "generator model is C01's); in-place updates are covered by correspondence + the struct oracle only (no theorem); little-endian host; "
+              "generator model is C01's); little-endian host; "
               "interpreter semantics")
 TECHNIQUE = "Lean 4 proof over the format table (all byte strings) + exact generated-code/model correspondence"
 DESIGN_REF = "§4 C07"
